@@ -14,12 +14,13 @@ import zlib
 from harness.core import VERIF, Result
 from harness.lib import crc_refenc as R
 
-COMPONENTS = ["crc"]
+COMPONENTS = ["crc", "consumer"]  # "consumer": the full-stack growth stage evaluates the consumer package's monitors on its trace
+CONSTS = ["crc", "consumer"]
 TRUSTED = [
     "zlib.crc32 is modelled by Afkak/Crc32.lean (bit-serial LFSR = byte table, proved) and compared with it on every run",
     "gzip_decode is a parameter of the model: the harness records what the real one returned and hands the same table to the model; zlib's expansion ratio is outside the model",
     "harness/lib/crc_refenc.py: independent CRC-32 / Message v0,v1 / message-set / response encoders written from the Kafka protocol guide",
-    "cost = calls of relative_unpack/read_short_*/read_int_string + bytes handed to zlib.crc32, counted on the real decoder by wrappers installed in afkak.kafkacodec's namespace (restored afterwards); CPython's real time and allocation are recorded as evidence only",
+    "cost = calls of relative_unpack/read_short_*/read_int_string + bytes handed to zlib.crc32, counted on the real decoder by wrappers installed in afkak.kafkacodec's namespace (restored afterwards); bytes copied = every slice ANY statement of the decoder takes of its input buffer, of a slice of it, or of a gzip_decode output, measured by handing the decoders a bytes subclass whose slicing is counted (TrackedBytes); CPython's real time and allocation are recorded as evidence only",
 ]
 ASSUMPTIONS = [
     "burst = error pattern whose set bits lie within 32 consecutive bits in the order CRC-32 consumes them (byte by byte, least significant bit first); this contains every alteration confined to 4 consecutive bytes",
@@ -41,6 +42,35 @@ class ReadBudgetExceeded(BaseException):
 
 def budget(n):
     return 8 * n + 256
+
+
+class TrackedBytes(bytes):
+    """The buffer handed to the real decoders.  Every slice taken of it - by ANY statement of the
+    implementation, not only inside the primitive readers - is charged its length to `sliced`, and
+    is itself tracked (so are the outputs of gzip_decode).  This MEASURES the bytes the code copies
+    out of its input; nothing is derived from call arguments.  Indexing, len(), struct.unpack,
+    zlib.crc32, .decode(), hashing and comparison are those of bytes."""
+
+    __slots__ = ()
+    sliced = 0
+    instr = None  # the active Instr: its read budget also bounds the bytes sliced (x8: far beyond
+    # the proved 3*(len+gz)), so a decoder that copies quadratically is stopped instead of being left
+    # to copy gigabytes; the monitor then fails on the count
+
+    def __getitem__(self, k):
+        r = bytes.__getitem__(self, k)
+        if isinstance(k, slice):
+            T = TrackedBytes
+            T.sliced += len(r)
+            i = T.instr
+            if i is not None and T.sliced > 8 * (i.limit + 8 * i.gz_bytes):
+                raise ReadBudgetExceeded(T.sliced)
+            return T(r)
+        return r
+
+
+def tracked(data):
+    return None if data is None else TrackedBytes(data)
 
 
 class Instr:
@@ -82,12 +112,13 @@ class Instr:
                 raise
             inst.gz.append((payload, "o", out))
             inst.gz_bytes += len(out)
-            return out
+            return TrackedBytes(out) if isinstance(out, bytes) else out
 
         K.gzip_decode = gz
         return self
 
     def __exit__(self, *a):
+        TrackedBytes.instr = None
         for n, v in self.saved.items():
             setattr(self.K, n, v)
 
@@ -105,7 +136,7 @@ class Instr:
             w = 4 if name == "read_int_string" else 2
             if len(data) < cur + w:
                 return 0
-            (n,) = struct.unpack(">i" if w == 4 else ">h", data[cur : cur + w])
+            (n,) = struct.unpack(">i" if w == 4 else ">h", bytes.__getitem__(data, slice(cur, cur + w)))  # untracked peek
             if n < 0 or len(data) < cur + w + n:
                 return w
             return w + n
@@ -124,8 +155,15 @@ class Instr:
 
         return w
 
+    @property
+    def measured(self):
+        """Bytes the code has sliced out of tracked buffers since reset() (measured)."""
+        return TrackedBytes.sliced
+
     def reset(self, limit=10 ** 9):
         self.limit = limit
+        TrackedBytes.sliced = 0
+        TrackedBytes.instr = self
         self.reads = 0
         self.bytes = 0
         self.crc_bytes = 0
@@ -228,28 +266,34 @@ def eval_set(instr, data):
     from afkak.kafkacodec import KafkaCodec as C
 
     instr.reset(budget(len(data or b"")))
-    y, e = drain_set(C._decode_message_set_iter(data))
-    return {"yielded": y, "end": e, "cost": instr.reads + instr.crc_bytes, "alloc": instr.bytes + instr.crc_bytes, "gz": instr.gz_bytes, "gzt": instr.gz_tokens()}
+    y, e = drain_set(C._decode_message_set_iter(tracked(data)))
+    # alloc: MEASURED on the buffer (every slice any statement of the code takes); alloc_args: what
+    # the primitive readers + the checksum slice account for by their arguments (evidence)
+    return {"yielded": y, "end": e, "cost": instr.reads + instr.crc_bytes, "alloc": instr.measured, "alloc_args": instr.bytes + instr.crc_bytes,
+            "gz": instr.gz_bytes, "gzt": instr.gz_tokens()}
 
 
 def eval_dec(instr, decs, name, version, data):
     """Run one real decode_* (generators drained; fetch message sets iterated). -> dict"""
     instr.reset(budget(len(data)))
     try:
-        v = decs[name](data, version)
+        v = decs[name](tracked(data), version)
     except (Exception, ReadBudgetExceeded) as e:  # noqa: BLE001
-        return {"out": "error " + type(e).__name__, "outer": instr.reads, "outer_bytes": instr.bytes, "cost": instr.reads, "gz": 0, "gzt": [], "sets": []}
+        return {"out": "error " + type(e).__name__, "outer": instr.reads, "outer_bytes": instr.measured, "cost": instr.reads, "gz": 0, "gzt": [], "sets": []}
     outer = instr.reads
-    outer_bytes = instr.bytes
+    outer_bytes = instr.measured  # measured (see TrackedBytes)
     sets = []
+    per_part = None
     if name == "fetch":
         parts = []
+        per_part = []
         for fr in v:
             before = (instr.reads + instr.crc_bytes, instr.gz_bytes)
             y, e = drain_set(fr.messages)
             # length of this message set's bytes is not observable from the FetchResponse; the
             # per-set cost monitor uses the whole input length (an over-approximation of the set's)
             sets.append((instr.reads + instr.crc_bytes - before[0], instr.gz_bytes - before[1]))
+            per_part.append((y, e))
             parts.append("[%s,%s,%s,%s,%s]" % (canon(fr.topic), canon(fr.partition), canon(fr.error), canon(fr.highwaterMark), show_set(y, e)))
         out = "[" + ",".join(parts) + "]"
     else:
@@ -257,7 +301,7 @@ def eval_dec(instr, decs, name, version, data):
             out = canon(v)
         except TypeError as e:  # a value of a shape no decoder produces: reported as a disagreement
             out = "?uncanonical(%s)" % e
-    return {"out": "value " + out, "outer": outer, "outer_bytes": outer_bytes, "cost": instr.reads + instr.crc_bytes, "gz": instr.gz_bytes, "gzt": instr.gz_tokens(), "sets": sets}
+    return {"out": "value " + out, "outer": outer, "outer_bytes": outer_bytes, "cost": instr.reads + instr.crc_bytes, "gz": instr.gz_bytes, "gzt": instr.gz_tokens(), "sets": sets, "parts": per_part}
 
 
 # ------------------------------------------------------------------ batching of model requests
@@ -781,6 +825,75 @@ def trunc_cases(ctx, res, instr, n_sets, every_cut_below, sampled_cuts):
     res.traces_validated += n_sets
 
 
+def fetch_trunc_cases(ctx, res, instr, n):
+    """Truncation INSIDE a fetch response: 2..5 partitions (1..3 topics), each with a set of plain
+    messages cut at its own point (mid-message, on a boundary, complete, empty) - in particular sets
+    that are NOT the last one in the response end in a cut-short message with more bytes following.
+    The real decode_fetch_response (v0 and v2) on a tracked buffer; per partition the Lean monitor
+    truncOk judges what iterating that partition's messages yielded against the messages that were
+    encoded; the whole outcome is compared with the model's."""
+    rng = ctx.rng
+    decs = real_decoders()
+    b = Batch(ctx)
+    for i in range(n):
+        version = rng.choice([0, 2])
+        parts, topics = [], []
+        nparts = rng.choice([2, 2, 3, 4, 5])
+        for t in range(rng.choice([1, 1, 2, 3])):
+            topics.append((b"t%d" % t, []))
+        for pi in range(nparts):
+            entries, refs, msgs = gen_flat_set(rng, 4, 30)
+            data = R.enc_set(entries)
+            bounds = [sum(12 + len(m) for _, m in entries[:j]) for j in range(len(entries) + 1)]
+            r = rng.random()
+            if r < 0.55 and data:
+                c = rng.randrange(1, len(data))                      # anywhere strictly inside
+            elif r < 0.7 and len(entries) >= 1:
+                c = rng.choice(bounds[:-1]) + rng.choice([1, 11, 12, 13, 17])  # just after a boundary: offset/size/crc cut
+                c = min(c, len(data))
+            elif r < 0.85:
+                c = len(data)
+            else:
+                c = rng.choice(bounds)
+            parts.append({"entries": entries, "refs": refs, "c": c, "data": data[:c]})
+            topics[rng.randrange(len(topics))][1].append((pi, 0, 100 + pi, data[:c]))
+        topics = [t for t in topics if t[1]]
+        order = [p[0] for t in topics for p in t[1]]
+        fdata, _ = R.enc_fetch(rng.randrange(1, 1000), topics, version, 0)
+        sc = {"kind": "fetchtrunc", "version": version, "topics": [[hx(t[0]), [[p[0], hx(p[3])] for p in t[1]]] for t in topics],
+              "parts": [{"entries": [[o, hx(m)] for o, m in parts[pi]["entries"]], "refs": parts[pi]["refs"], "c": parts[pi]["c"]} for pi in order]}
+        r = eval_dec(instr, decs, "fetch", version, fdata)
+        impl = [r["out"], "cost %d gz %d" % (r["cost"], r["gz"])]
+
+        def chk(l, g, sc=sc, impl=impl):
+            if g != impl:
+                disagree(res, "decode_fetch_response (several partitions, cut sets): model differs from code", sc, [x[:600] for x in impl], [x[:600] for x in g])
+
+        b.add("dec fetch %d %d %s" % (version, DEPTH, hx(fdata)), chk)
+        got = r.get("parts")
+        if got is None or len(got) != len(order):
+            res.monitor_failures.append({"what": "a well-formed fetch response with cut-short message sets was not decoded into its partitions", "scenario": dict(sc, impl=r["out"][:600]), "tags": ["truncation-wrong"]})
+        else:
+            for k, pi in enumerate(order):
+                p = parts[pi]
+                y, end = got[k]
+                lens = ",".join(str(12 + len(m)) for _, m in p["entries"]) or "-"
+                last = k == len(order) - 1
+
+                def mon(l, g, sc=sc, k=k, y=y, end=end, last=last):
+                    if g != ["ok"]:
+                        res.monitor_failures.append({"what": "fetch response: the cut-short message set of partition #%d (%s in the response) did not yield exactly the complete messages before the cut / the fetch-size-too-small signal" % (k, "last" if last else "not the last"),
+                                                     "scenario": dict(sc, partition_index=k, impl=show_set(y, end)), "tags": ["truncation-wrong"]})
+
+                b.add("mon-trunc %s %s %d %s %s" % (lens, ";".join(p["refs"]) or "-", p["c"], ";".join(y) or "-", end), mon)
+                cut_kind = "complete" if p["c"] == len(R.enc_set(p["entries"])) else "cut"
+                res.count("fetchtrunc:%s:%s:%s" % ("last" if last else "inner", cut_kind, end))
+        res.evaluations += 1
+        res.nontrivial(["fetchtrunc", hx(fdata)[:400], len(fdata)])
+    b.flush()
+    res.traces_validated += n
+
+
 def gen_wrapper_clean(rng):
     """A complete gzip wrapper (either message format) around 0..3 plain messages.
     -> (wrapper offset, wrapper message bytes, canonical form of what it contains): stored inner
@@ -1106,7 +1219,7 @@ def alloc_evidence(ctx, res, instr):
         dt = time.perf_counter() - t0
         peak = tracemalloc.get_traced_memory()[1]
         tracemalloc.stop()
-        rows.append({"input": label, "kind": kind, "len": n, "outcome": out, "reads": instr.reads, "sliced_bytes": instr.bytes + instr.crc_bytes,
+        rows.append({"input": label, "kind": kind, "len": n, "outcome": out, "reads": instr.reads, "sliced_bytes": instr.measured,
                      "peak_bytes": peak, "peak_per_input_byte": round(peak / max(n, 1), 2), "seconds": round(dt, 5)})
 
     for size in ctx.scale([256, 4096, 65536], [256, 4096, 65536, 1048576]):
@@ -1115,18 +1228,96 @@ def alloc_evidence(ctx, res, instr):
         nt = max(1, size // per_topic)
         topics = [(0, b"t%05d" % i, [(0, p, 1, [1, 2], [1, 2]) for p in range(3)]) for i in range(nt)]
         data, counts = R.enc_metadata(1, [(1, b"host", 9092)], topics)
-        measure("metadata", "valid", len(data), lambda: decs["metadata"](data, 0))
+        measure("metadata", "valid", len(data), lambda: decs["metadata"](tracked(data), 0))
         off, w = counts[2]
         bad = data[:off] + struct.pack(">i", 2 ** 31 - 1) + data[off + w :]
-        measure("metadata", "count=2^31-1", len(bad), lambda: decs["metadata"](bad, 0))
+        measure("metadata", "count=2^31-1", len(bad), lambda: decs["metadata"](tracked(bad), 0))
         # a message set of ~size bytes in ~100-byte messages, iterated; and the same cut short
         msgs = [(i, R.enc_message(0, 0, None, bytes(rng.getrandbits(8) for _ in range(64)))) for i in range(max(1, size // 90))]
         ms = R.enc_set(msgs)
-        measure("message set", "valid", len(ms), lambda: list(C._decode_message_set_iter(ms)))
-        measure("message set", "cut short", len(ms) - 7, lambda: list(C._decode_message_set_iter(ms[:-7])))
+        measure("message set", "valid", len(ms), lambda: list(C._decode_message_set_iter(tracked(ms))))
+        measure("message set", "cut short", len(ms) - 7, lambda: list(C._decode_message_set_iter(tracked(ms[:-7]))))
         fdata, _ = R.enc_fetch(1, [(b"t", [(0, 0, len(msgs), ms)])])
-        measure("fetch + sets", "valid", len(fdata), lambda: [list(r.messages) for r in decs["fetch"](fdata, 0)])
+        measure("fetch + sets", "valid", len(fdata), lambda: [list(r.messages) for r in decs["fetch"](tracked(fdata), 0)])
     res.extra["alloc_by_size"] = rows
+
+
+def scaling_data(shape, n, tiny, wmagic):
+    """n minimal messages (cycling through `tiny`): as one flat set, the same cut 5 bytes short, or as
+    the payload of one gzip wrapper of format `wmagic`."""
+    if shape == "gzip-wrapper":
+        inner = R.enc_set([((i if wmagic == 1 else 1000 + i), tiny[i & 3]) for i in range(n)])
+        w = R.enc_message(wmagic, 1, None, R.gzip_bytes(inner), 0 if wmagic == 1 else None)
+        return R.enc_set([(1000 + n - 1, w)])
+    flat = R.enc_set([(i, tiny[i & 3]) for i in range(n)])
+    return flat[: len(flat) - 5] if shape == "flat-cut" else flat
+
+
+def scaling_cases(ctx, res, instr):
+    """Linear or not?  One message set (and one gzip wrapper's payload) holding thousands to tens of
+    thousands of minimal messages, iterated by the real decoder on a tracked buffer: the MEASURED bytes
+    sliced and the counted reads/checksummed bytes must satisfy the same Lean monitors (setAllocOk,
+    setCostOk) the theorems C12_alloc_msgset / C12_linear_msgset prove for every input.  The two
+    smallest sizes are also compared with the model exactly (the list-based model is itself too slow
+    beyond ~1000 entries; the monitors are arithmetic on the measured numbers).  Per-byte figures and
+    wall clock go to the evidence (growth of sliced bytes per input byte is what tells linear from
+    quadratic; time is evidence only)."""
+    rng = ctx.rng
+    b = Batch(ctx)
+    rows = []
+    sizes = ctx.scale([200, 1000, 6000, 30000], [200, 1000, 6000, 30000, 100000])
+    for n in sizes:
+        magic = rng.choice([0, 1])
+        tiny = [R.enc_message(magic, 0, None, rng.choice([b"", None, b"x"]), 0 if magic == 1 else None) for _ in range(4)]
+        wmagic = rng.choice([0, 1])
+        shapes = [(sh, scaling_data(sh, n, tiny, wmagic)) for sh in (("flat", "gzip-wrapper", "flat-cut") if n <= 30000 else ("flat",))]
+        for shape, data in shapes:
+            t0 = time.perf_counter()
+            r = eval_set(instr, data)
+            dt = time.perf_counter() - t0
+            # the replay rebuilds the bytes from (shape, messages, tiny, wmagic): too long to store
+            sc = {"kind": "scaling", "shape": shape, "messages": n, "tiny": [hx(t) for t in tiny], "wmagic": wmagic, "len": len(data)}
+            tot = len(data) + r["gz"]
+            rows.append({"shape": shape, "messages": n, "len": len(data), "gz": r["gz"], "yielded": len(r["yielded"]), "end": r["end"], "reads+crc": r["cost"],
+                         "sliced": r["alloc"], "sliced_per_byte": round(r["alloc"] / max(tot, 1), 3), "cost_per_byte": round(r["cost"] / max(tot, 1), 3), "seconds": round(dt, 4)})
+            if r["end"] != "ok" or len(r["yielded"]) != (n - 1 if shape == "flat-cut" else n):
+                res.monitor_failures.append({"what": "a valid large message set is not decoded completely", "scenario": dict(sc, end=r["end"], yielded=len(r["yielded"])), "tags": ["valid-set-not-identity"]})
+
+            def amon(l, g, sc=sc, r=r):
+                if g != ["ok"]:
+                    res.monitor_failures.append({"what": "message-set iteration: bytes sliced/copied exceed the linear bound (many tiny messages)", "scenario": dict(sc, alloc=r["alloc"], gz=r["gz"]), "tags": ["set-alloc-superlinear"]})
+
+            b.add("mon-setalloc %d %d %d" % (len(data), r["gz"], r["alloc"]), amon)
+
+            def mon(l, g, sc=sc, r=r):
+                if g != ["ok"]:
+                    res.monitor_failures.append({"what": "message-set iteration cost exceeds the linear bound (many tiny messages)", "scenario": dict(sc, cost=r["cost"], gz=r["gz"]), "tags": ["set-cost-superlinear"]})
+
+            b.add("mon-setcost %d %d %d" % (len(data), r["gz"], r["cost"]), mon)
+            if n <= 1000:
+                impl = ["alloc %d gz %d" % (r["alloc"], r["gz"])]
+
+                def achk(l, g, sc=sc, impl=impl):
+                    if g != impl:
+                        disagree(res, "message-set iteration (many tiny messages): bytes sliced by the code differ from the model's allocation measure", sc, impl, g)
+
+                b.add("decseta %d %s %s" % (DEPTH, hx(data), " ".join(r["gzt"])), achk)
+                impl2 = ["set " + show_set(r["yielded"], r["end"]), "cost %d gz %d" % (r["cost"], r["gz"])]
+
+                def chk(l, g, sc=sc, impl2=impl2):
+                    if g != impl2:
+                        disagree(res, "message-set iteration (many tiny messages): model differs from code", sc, [x[:300] for x in impl2], [x[:300] for x in g])
+
+                b.add("decset %d %s %s" % (DEPTH, hx(data), " ".join(r["gzt"])), chk)
+            res.evaluations += 1
+            res.count("scaling_shape=%s" % shape)
+            res.count("scaling_messages_log2=%d" % n.bit_length())
+            res.nontrivial(["scaling", shape, n, hx(data[:64])])
+    b.flush()
+    res.extra["scaling_by_size"] = rows
+    flat_rows = [x for x in rows if x["shape"] == "flat"]
+    if len(flat_rows) >= 2:
+        res.extra["scaling_sliced_per_byte_growth"] = round(flat_rows[-1]["sliced_per_byte"] / max(flat_rows[0]["sliced_per_byte"], 1e-9), 3)
 
 
 def run_corpus(ctx, res, instr):
@@ -1190,13 +1381,22 @@ def sections(ctx, res, f, corpus):
             run_corpus(ctx, res, instr)
             cost_evidence(ctx, res, instr)
             alloc_evidence(ctx, res, instr)
+            scaling_cases(ctx, res, instr)
         crc_cases(ctx, res, n(300, 3000))
         msgset_cases(ctx, res, instr, n(600, 8000))
         burst_cases(ctx, res, instr, n_msgs=n(6, 24), exhaustive_span=ctx.scale(8, 11), per_span=ctx.scale(2, 6), sampled_large=n(20, 150))
         trunc_cases(ctx, res, instr, n_sets=n(100, 1200), every_cut_below=ctx.scale(400, 1500), sampled_cuts=ctx.scale(20, 100))
         trunc_wrapped_cases(ctx, res, instr, n_sets=n(40, 500))
+        fetch_trunc_cases(ctx, res, instr, n(400, 6000))
         hostile_cases(ctx, res, instr, per_decoder=n(40, 500), random_per_decoder=n(300, 4000))
     grow_cases(ctx, res, n(1500, 20000))
+    if corpus:
+        # real Consumer over the real KafkaClient over the simulated cluster, a log holding a message
+        # larger than buffer_size: the buffer must grow by the rule and every message be delivered
+        # (the fetch-size-too-small signal has to reach the CONSUMER's iteration through the client)
+        from harness.lib import consumer_fullstack
+
+        consumer_fullstack.growth_stage(ctx, res, "C12", ctx.scale(25, 40))
 
 
 SHARDS = 16
@@ -1275,17 +1475,26 @@ def search(ctx, res, broken):
     r2 = Result()
     with Instr() as instr:
         cost_evidence(ctx, r2, instr)
+        scaling_cases(ctx, r2, instr)
         burst_cases(ctx, r2, instr, n_msgs=ctx.scale(3, 10), exhaustive_span=ctx.scale(6, 9), per_span=2, sampled_large=ctx.scale(10, 40))
         trunc_cases(ctx, r2, instr, n_sets=ctx.scale(40, 300), every_cut_below=600, sampled_cuts=30)
         trunc_wrapped_cases(ctx, r2, instr, n_sets=ctx.scale(30, 200))
+        fetch_trunc_cases(ctx, r2, instr, ctx.scale(600, 4000))
         hostile_cases(ctx, r2, instr, per_decoder=ctx.scale(20, 120), random_per_decoder=ctx.scale(100, 800))
         msgset_cases(ctx, r2, instr, ctx.scale(100, 1000))
     grow_cases(ctx, r2, ctx.scale(300, 3000))
+    from harness.lib import consumer_fullstack
+
+    consumer_fullstack.growth_stage(ctx, r2, "C12", ctx.scale(40, 300))
     return r2.monitor_failures[:3]
 
 
 def replay(ctx, data):
     f = data.get("failure") or {}
+    if isinstance(f.get("scenario"), dict) and "fullstack_spec" in f["scenario"]:
+        from harness.lib import consumer_check
+
+        return consumer_check.replay(ctx, data, "C12")
     nlc = (data.get("no_longer_checks") or [{}])[0].get("what", {})
     sc = f.get("scenario") or (nlc.get("scenario") if isinstance(nlc, dict) else None) or data.get("scenario") or (data if "kind" in data else {})
     print("replay scenario:", json.dumps(sc)[:2000])
@@ -1343,6 +1552,29 @@ def replay(ctx, data):
             print("impl :", show_set(r["yielded"], r["end"])[:1500], "cost", r["cost"])
             print("disagreements:", res.disagreements[:1], "monitor failures:", res.monitor_failures[:1])
             bad = bool(res.monitor_failures)
+        elif kind == "scaling":
+            d = scaling_data(sc["shape"], sc["messages"], [bytes.fromhex(t) for t in sc["tiny"]], sc["wmagic"])
+            r = eval_set(instr, d)
+            g = ctx.model("crc", ["mon-setalloc %d %d %d" % (len(d), r["gz"], r["alloc"]), "mon-setcost %d %d %d" % (len(d), r["gz"], r["cost"])])
+            print("impl : %d messages yielded, end %s; input %d bytes + gunzip %d; sliced %d bytes (measured), reads+checksummed %d" % (len(r["yielded"]), r["end"], len(d), r["gz"], r["alloc"], r["cost"]))
+            print("monitor setAllocOk (sliced <= 3*(len+gz)):", g[0])
+            print("monitor setCostOk (reads+crc <= 2*(len+gz)+2):", g[1])
+            bad = g[0] != ["ok"] or g[1] != ["ok"]
+        elif kind == "fetchtrunc":
+            topics = [(bytes.fromhex(t) if t != "-" else b"", [(pi, 0, 100 + pi, b"" if d == "-" else bytes.fromhex(d)) for pi, d in ps]) for t, ps in sc["topics"]]
+            fdata, _ = R.enc_fetch(1, topics, sc["version"], 0)
+            r = eval_dec(instr, real_decoders(), "fetch", sc["version"], fdata)
+            print("impl :", r["out"][:1500])
+            got = r.get("parts") or []
+            bad = len(got) != len(sc["parts"])
+            lines = []
+            for p_, (y, end) in zip(sc["parts"], got):
+                lens = ",".join(str(12 + len(m) // 2) for _, m in p_["entries"]) or "-"
+                lines.append("mon-trunc %s %s %d %s %s" % (lens, ";".join(p_["refs"]) or "-", p_["c"], ";".join(y) or "-", end))
+            g = ctx.model("crc", lines) if lines else []
+            for k, (l, a) in enumerate(zip(lines, g)):
+                print("partition #%d monitor truncOk: %s   (%s)" % (k, a, l[:300]))
+                bad = bad or a != ["ok"]
         elif kind == "grow":
             import logging
 
